@@ -148,6 +148,46 @@ func runTransport(s script) {
 	}
 }
 
+// runPrealloc: the messages are all allocated first and sent afterwards (as a connection does with the Return of a call that
+// is still running): a message that exists already when the stream is torn must not be written either
+func runPrealloc(s script) {
+	f := &faulty{at: s.At, k: s.K, closed: make(chan struct{})}
+	t := newTransport(s, f)
+	ctx := context.Background()
+	type pending struct {
+		send    func() error
+		release capnp.ReleaseFunc
+	}
+	var ps []pending
+	for i := 0; i < 4; i++ {
+		msg, send, release, err := t.NewMessage(ctx)
+		emit(J{"ev": "newmsg", "err": err != nil})
+		if err != nil {
+			continue
+		}
+		c, _ := msg.NewCall()
+		c.SetQuestionId(uint32(i))
+		p, _ := c.NewParams()
+		d, _ := capnp.NewData(msg.Struct.Segment(), make([]byte, 40+i))
+		p.SetContent(d.List.ToPtr())
+		ps = append(ps, pending{send, release})
+	}
+	for _, p := range ps {
+		emit(J{"ev": "send-begin"})
+		err := p.send()
+		emit(J{"ev": "send-end", "err": err != nil})
+		p.release()
+	}
+	done := make(chan struct{})
+	go func() { t.Close(); close(done) }()
+	select {
+	case <-done:
+		emit(J{"ev": "close", "ok": true})
+	case <-time.After(5 * time.Second):
+		emit(J{"ev": "close", "ok": false})
+	}
+}
+
 func runConn(s script) {
 	f := &faulty{at: s.At, k: s.K, closed: make(chan struct{})}
 	conn := rpc.NewConn(newTransport(s, f), &rpc.Options{ErrorReporter: nopReporter{}})
@@ -194,6 +234,8 @@ func main() {
 		emit(J{"ev": "reset", "level": s.Level})
 		if s.Level == "conn" {
 			runConn(s)
+		} else if s.Level == "prealloc" {
+			runPrealloc(s)
 		} else {
 			runTransport(s)
 		}
